@@ -340,11 +340,11 @@ CHECKS["C15"] = {
     "explanation": "entry order, repetition, spellings, modes and times symbolic; expected tree computed from the header list alone",
     "anchors": ["(*github.com/hashicorp/go-slug.Packer).Unpack", "github.com/hashicorp/go-slug/internal/unpackinfo.NewUnpackInfo", "(github.com/hashicorp/go-slug/internal/unpackinfo.UnpackInfo).RestoreInfo",
                 "(github.com/hashicorp/go-slug/internal/unpackinfo.UnpackInfo).restoreDirectory", "(github.com/hashicorp/go-slug/internal/unpackinfo.UnpackInfo).restoreNormal"],
-    "bounds": {"quick": "K=1 and K=2 entries, 10 name spellings, 4 kinds (4 link targets, 4 unrepresentable flags), mode 9 free bits, mtime 6 free bits", "thorough": "K=3"},
+    "bounds": {"quick": "K=1 and K=2 entries, 13 name spellings, 4 kinds (4 link targets, 4 unrepresentable flags), mode 9 free bits, mtime 6 free bits", "thorough": "K=3 over the first 6 name spellings (a, a/, ./a, /a, b, a/b)"},
     "assumptions": PACK_ASSUME + ["well-formedness (assumed): no '..' in names, link targets in-tree, a path is not both a file and a directory, nothing is named below a file or link, a link does not come after another entry for the same path (an earlier link may be replaced by a file or a directory)"],
     "groups": [slug_group("c15", ["harness/slug/unpack.go", "harness/slug/c15.go"],
                           quick=[{"id": "c15-K1", "entry": "HarnessC15", "params": {"K": 1}}, {"id": "c15-K2", "entry": "HarnessC15", "params": {"K": 2}, "shards": 8, "_w": 50}],
-                          thorough=[{"id": "c15-K2", "entry": "HarnessC15", "params": {"K": 2}, "shards": 4}, {"id": "c15-K3", "entry": "HarnessC15", "params": {"K": 3}, "shards": 16}],
+                          thorough=[{"id": "c15-K2", "entry": "HarnessC15", "params": {"K": 2}, "shards": 4}, {"id": "c15-K3-n6", "entry": "HarnessC15", "params": {"K": 3, "nNames": 6}, "shards": 16, "shard_depth": 14}],
                           reach=["well-formed", "unsupported-type"], sample_every=25)],
 }
 
